@@ -164,7 +164,9 @@ def run(ctx):
         bs_ = sorted(set(b_ for n_ in ends[2:] for b_ in (n_ - 1, n_, n_ + 1) if b_ > 0))
         if bs_:
             bjobs.append((f, ";".join("d20n%d,d3" % b_ for b_ in bs_) + ";" + ";".join("d20n%d,d4,d3" % b_ for b_ in bs_[1::3])))
-    jobs = [(f, hseqs) for f in hfens] + [(f, sweep) for f in small_corpus] + bjobs
+    dense = [l.strip() for l in open(os.path.join(C.VERIF, "corpus", "mate_dense.txt")) if l.strip() and not l.startswith("#")]
+    dense += [f for _, f in P.ep_discovered_check_families()][ctx["seed"] % 4::4]
+    jobs = [(f, hseqs) for f in hfens] + [(f, sweep) for f in small_corpus] + bjobs + [(f, "d3;d4,d3;d2,d3;d3,d3;d5,d3") for f in dense]
     hstats_boundary = sum(sq_.count(";") + 1 for _, sq_ in bjobs)
     chunks = [jobs[i::C.NPROC] for i in range(C.NPROC)]
 
